@@ -43,6 +43,15 @@
  */
 #define MAX_DURATION 16777216
 
+/* Like SB_CHECK() but releases what was allocated so far before returning */
+#define SB_CHECK_CLEANUP(func) \
+    {                          \
+        retval = (func);       \
+        if (retval != SB_SUCCESS) { \
+            goto cleanup;      \
+        }                      \
+    }
+
 #define OFFSET_OF_POINT(index) (plan->header_length + (index) * 2 * sizeof(int16_t))
 #define OFFSET_OF_ENTRY_TABLE (OFFSET_OF_POINT(plan->num_points))
 #define OFFSET_OF_FIRST_ENTRY (OFFSET_OF_ENTRY_TABLE + sizeof(uint16_t))
@@ -503,19 +512,19 @@ sb_error_t sb_trajectory_init_from_rth_plan_entry(
         start_time + (entry->pre_delay_sec > 0 ? entry->pre_delay_sec : 0)));
 
     SB_CHECK(sb_trajectory_builder_init(&builder, scale, /* flags = */ 0));
-    SB_CHECK(sb_trajectory_builder_set_start_position(&builder, start));
+    SB_CHECK_CLEANUP(sb_trajectory_builder_set_start_position(&builder, start));
 
-    SB_CHECK(sb_trajectory_builder_hold_position_for(&builder, duration_msec));
+    SB_CHECK_CLEANUP(sb_trajectory_builder_hold_position_for(&builder, duration_msec));
 
     /* Initialize target from start */
     target = start;
 
     /* Add pre-neck */
     if (entry->pre_neck_mm || entry->pre_neck_duration_sec) {
-        SB_CHECK(sb_uint32_msec_duration_from_float_seconds(
+        SB_CHECK_CLEANUP(sb_uint32_msec_duration_from_float_seconds(
             &duration_msec, entry->pre_neck_duration_sec));
         target.z += entry->pre_neck_mm;
-        SB_CHECK(sb_trajectory_builder_append_line(&builder, target, duration_msec));
+        SB_CHECK_CLEANUP(sb_trajectory_builder_append_line(&builder, target, duration_msec));
     }
 
     /* Add action */
@@ -527,9 +536,9 @@ sb_error_t sb_trajectory_init_from_rth_plan_entry(
     case SB_RTH_ACTION_GO_TO_KEEPING_ALTITUDE:
         target.x = entry->target.x;
         target.y = entry->target.y;
-        SB_CHECK(sb_uint32_msec_duration_from_float_seconds(
+        SB_CHECK_CLEANUP(sb_uint32_msec_duration_from_float_seconds(
             &duration_msec, entry->duration_sec));
-        SB_CHECK(sb_trajectory_builder_append_line(&builder, target, duration_msec));
+        SB_CHECK_CLEANUP(sb_trajectory_builder_append_line(&builder, target, duration_msec));
 
         break;
 
@@ -537,9 +546,9 @@ sb_error_t sb_trajectory_init_from_rth_plan_entry(
         target.x = entry->target.x;
         target.y = entry->target.y;
         target.z = entry->target_altitude;
-        SB_CHECK(sb_uint32_msec_duration_from_float_seconds(
+        SB_CHECK_CLEANUP(sb_uint32_msec_duration_from_float_seconds(
             &duration_msec, entry->duration_sec));
-        SB_CHECK(sb_trajectory_builder_append_line(&builder, target, duration_msec));
+        SB_CHECK_CLEANUP(sb_trajectory_builder_append_line(&builder, target, duration_msec));
 
         break;
 
@@ -551,9 +560,9 @@ sb_error_t sb_trajectory_init_from_rth_plan_entry(
 
     /* Add post delay */
     if (entry->post_delay_sec > 0) {
-        SB_CHECK(sb_uint32_msec_duration_from_float_seconds(
+        SB_CHECK_CLEANUP(sb_uint32_msec_duration_from_float_seconds(
             &duration_msec, entry->post_delay_sec));
-        SB_CHECK(sb_trajectory_builder_hold_position_for(&builder, duration_msec));
+        SB_CHECK_CLEANUP(sb_trajectory_builder_hold_position_for(&builder, duration_msec));
     }
 
     retval = sb_trajectory_init_from_builder(trajectory, &builder);
